@@ -1261,6 +1261,17 @@ fn most_significant_non_vector(
     right_location: SourceLocation,
     module: &mut ir::Module,
 ) -> TyperResult<ir::TypeId> {
+    // An enum that meets a value of another type takes part with its underlying type
+    // The operation on a uint based enum and an int or a bool is then done in uint instead of int
+    let left_tyl = module.type_registry.get_type_layer(left);
+    let right_tyl = module.type_registry.get_type_layer(right);
+    let (left, right) = match (left_tyl, right_tyl) {
+        (ir::TypeLayer::Enum(_), ir::TypeLayer::Enum(_)) => (left, right),
+        (ir::TypeLayer::Enum(id), _) => (module.enum_registry.get_underlying_type_id(id), right),
+        (_, ir::TypeLayer::Enum(id)) => (left, module.enum_registry.get_underlying_type_id(id)),
+        _ => (left, right),
+    };
+
     let left_order = match get_non_vector_conversion_rank(left, module) {
         Some(order) => order,
         None => return Err(TyperError::NumericTypeExpected(left_location)),
